@@ -1303,6 +1303,24 @@ func genFuzz(o *Out, tier string, r *Rng) {
 				if r.Chance(8) {
 					return "-"
 				}
+				if r.Chance(45) {
+					// a list that converts: IDs with the sigil, as strings or pairs, beside entries the conversion skips
+					n := r.Intn(4)
+					l := make([]interface{}, 0, n)
+					for i := 0; i < n; i++ {
+						id := Pick(r, []string{"$a:b", "$e1:hs1", "$" + r.id43(), "$", "$-_:b", "$////:b", "$abc=:b", "$abcd"})
+						switch r.Intn(6) {
+						case 0, 1, 2:
+							l = append(l, id)
+						case 3, 4:
+							l = append(l, []interface{}{id, Pick(r, []interface{}{map[string]interface{}{"sha256": "x"}, 5, nil})})
+						default:
+							l = append(l, Pick(r, []interface{}{5, nil, true, map[string]interface{}{}}))
+						}
+					}
+					b, _ := json.Marshal(l)
+					return hx(b)
+				}
 				l := r.refList()
 				if arr, ok := l.([]interface{}); ok && len(arr) > 200 {
 					l = arr[:Pick(r, []int{1, 50, 200})]
